@@ -4,7 +4,8 @@
      weed/server/filer_server_handlers_write_upload.go     uploadReaderToChunks, dataToChunk
    Executable definitions only; proofs are in proof/FilerWriteProofs.v.
 
-   Faithful to the code as it is (after the four C25 repairs):
+   Faithful to the code as it is (after the five C25 repairs; the fifth, append
+   onto a directory refused, is in handle_write_fs below):
    * a body read error ends the chunk loop AND is recorded: the request fails
      ("read input: ..." -> 499) and nothing is committed;
    * the first read is inlined only when it is SHORTER than the chunk size (so it
@@ -253,8 +254,9 @@ Definition shape (r : upload_result) : plan :=
      * "fix the path": a URL path without trailing "/" that is an existing
        DIRECTORY gets "/" + fileName appended when fileName <> "" (for a PUT
        fileName = path.Base(URL path), so PUT /d writes /d/d);
-     * ?op=append merges into whatever entry is stored under the resolved path
-       (FindEntry), a directory entry included;
+     * ?op=append merges into the FILE entry stored under the resolved path
+       (FindEntry); when that entry is a DIRECTORY the request is refused
+       ("... is a directory" -> 500) and the new chunks are handed to DeleteChunks;
      * Filer.CreateEntry refuses a new entry below a regular file
        (ensureParentDirecotryEntry: "... is a file" -> 409) and a file over a
        directory (UpdateEntry: "existing ... is a directory" -> 500); saveMetaData
@@ -325,14 +327,16 @@ Definition handle_write_fs (md5 : list N -> N) (fr : fsreq) (st : fsstate) : fsr
       let t := target fr st in
       match (if rq_append rq then node_entry t else None) with
       | Some e =>
-          if negb (is_nil (e_content e)) then failed [] (ur_chunks ur)
+          (* if entry.IsDirectory() { fs.filer.DeleteChunks(fileChunks); return "... is a directory" }  -> 500 *)
+          if is_dir t then failed (ur_chunks ur) []
+          else if negb (is_nil (e_content e)) then failed [] (ur_chunks ur)
           else
-            (* the found entry itself (directory or file) is updated: CreateEntry accepts it *)
+            (* the found file entry is updated: CreateEntry accepts it *)
             let e' := {| e_size := entry_size e + ur_off ur; e_content := e_content e;
                          e_chunks := e_chunks e ++ map (shift_chunk (entry_size e)) (ur_chunks ur);
                          e_md5 := None |} in
             {| fo_status := Created;
-               fo_state := set_target fr st (if is_dir t then NDir e' else NFile e');
+               fo_state := set_target fr st (NFile e');
                fo_deleted := []; fo_leaked := []; fo_replaced := [] |}
       | None =>
           if create_fails fr st then failed (ur_chunks ur) []
@@ -346,6 +350,7 @@ Definition handle_write_fs (md5 : list N -> N) (fr : fsreq) (st : fsstate) : fsr
       end
   end.
 
-(* known finding 0 (c25-append-onto-directory): ?op=append whose resolved path is a DIRECTORY *)
-Definition trigger_append_dir (fr : fsreq) (st : fsstate) : bool :=
+(* ?op=append whose resolved path is a DIRECTORY: refused by saveMetaData (former
+   finding c25-append-onto-directory; a plain predicate now, not a trigger) *)
+Definition append_onto_dir (fr : fsreq) (st : fsstate) : bool :=
   rq_append (fr_rq fr) && is_dir (target fr st).
